@@ -8,6 +8,7 @@
   `conde` (`match`/`matche`), `conda` (`matcha`) or `condu` (`matchu`).
 -/
 import PvModel.Proofs.Surface
+import PvModel.Proofs.SurfaceSem
 import PvModel.Props.C08
 namespace Pv
 namespace Surface
@@ -50,6 +51,17 @@ theorem C13_arm_local (env : Env) (t p : STerm) (body rest : SGoal) (n : Nat) :
   refine ⟨n3, rfl, fun e1 e2 h => ?_⟩
   simp only [EGoal.disj.injEq] at h
   exact h.2.symm
+
+/-- THE DOCUMENTED MEANING OF `match`: under any valuation of the names in scope, `match t { p => body, rest… }`
+    holds exactly when, for some values of the pattern's (distinct) names — local to the arm — `t` and `p`
+    denote the same value and the body holds, or the remaining arms hold; and that is exactly when the
+    elaborated disjunction of `t == p, body` clauses holds for some values of the allocated variables. -/
+theorem C13_elab (t p : STerm) (body rest : SGoal) (env : Env) (γ0 : Valu) (n : Nat) (henv : ∀ x, env x < n) :
+    ((∃ ρ' : NValu, (∀ y, y ∉ p.names → ρ' y = γ0 (env y)) ∧
+        ∃ v, DenT (fun x => γ0 (env x)) t v ∧ DenT ρ' p v ∧ Den ρ' body) ∨ Den (fun x => γ0 (env x)) rest) ↔
+    ∃ γ : Valu, (∀ w, w < n → γ w = γ0 w) ∧ SatE γ (elabG env (.mtch t p body rest) n).1 := by
+  have := elab_sem (.mtch t p body rest) env γ0 n henv
+  simpa only [Den] using this
 
 /-- `matcha` / `matchu` apply the committed-choice rules of C08 to the same arms: they are `conda` / `condu`
     on the arm clauses (`Goal.condaOfClauses`, `Goal.conduOfClauses`), whose theorems are C08_conda … C08_onceo -/
